@@ -10,8 +10,130 @@ use crate::error::{QueryError, Result};
 use sqlparser::dialect::GenericDialect;
 use sqlparser::parser::Parser;
 
+/// Deepest nesting of parentheses a statement may have. The parser gives up
+/// at 50 levels of recursion, but only after trying every alternative reading
+/// of every enclosing CAST — `CAST(CAST(... 52 deep` never comes back — and
+/// the planner's own recursion is bounded by the same depth.
+const MAX_NESTING_DEPTH: usize = 32;
+/// Longest chain of chainable infix operators in one expression (`a AND b AND
+/// c ...`, `x + x + x ...`; comparisons do not chain and are not counted). Such a chain is a left-deep tree of that depth, and the
+/// binder, optimizer and evaluator all walk it recursively: a few hundred
+/// terms more overflow a 2 MB worker-thread stack and abort the process.
+const MAX_OPERATOR_CHAIN: usize = 256;
+/// Longest chain of set operations / number of CTEs, for the same reason.
+const MAX_SET_OPERATIONS: usize = 128;
+const MAX_CTES: usize = 128;
+
+/// Refuse statements whose shape would hang the parser or overflow the stack
+/// of the thread that plans them. One linear pass over the tokens; string and
+/// identifier contents are single tokens and never counted.
+fn check_statement_complexity(sql: &str) -> Result<()> {
+    use sqlparser::keywords::Keyword;
+    use sqlparser::tokenizer::{Token, Tokenizer};
+
+    let dialect = GenericDialect {};
+    // A text the tokenizer rejects is left to the parser's own error message.
+    let Ok(tokens) = Tokenizer::new(&dialect, sql).tokenize() else {
+        return Ok(());
+    };
+    let too_complex = |what: String| QueryError::Parse(format!("statement too complex: {what}"));
+
+    // one counter pair per open parenthesis: (operators in the current expression, set operations)
+    let mut levels: Vec<(usize, usize)> = vec![(0, 0)];
+    let mut ctes = 0usize;
+    let mut prev_was_as = false;
+    for token in &tokens {
+        let mut is_as = false;
+        match token {
+            Token::Whitespace(_) => continue,
+            Token::LParen => {
+                if prev_was_as {
+                    ctes += 1;
+                    if ctes > MAX_CTES {
+                        return Err(too_complex(format!("more than {MAX_CTES} common table expressions")));
+                    }
+                }
+                levels.push((0, 0));
+                if levels.len() - 1 > MAX_NESTING_DEPTH {
+                    return Err(too_complex(format!(
+                        "parentheses nested more than {MAX_NESTING_DEPTH} levels deep"
+                    )));
+                }
+            }
+            Token::RParen => {
+                if levels.len() > 1 {
+                    levels.pop();
+                }
+            }
+            Token::Comma | Token::SemiColon => {
+                if let Some(l) = levels.last_mut() {
+                    l.0 = 0;
+                }
+            }
+            Token::Plus
+            | Token::Minus
+            | Token::Mul
+            | Token::Div
+            | Token::Mod
+            | Token::StringConcat => {
+                let l = levels.last_mut().expect("never empty");
+                l.0 += 1;
+                if l.0 > MAX_OPERATOR_CHAIN {
+                    return Err(too_complex(format!(
+                        "more than {MAX_OPERATOR_CHAIN} infix operators in one expression"
+                    )));
+                }
+            }
+            Token::Word(w) => match w.keyword {
+                Keyword::AND | Keyword::OR | Keyword::NOT => {
+                    let l = levels.last_mut().expect("never empty");
+                    l.0 += 1;
+                    if l.0 > MAX_OPERATOR_CHAIN {
+                        return Err(too_complex(format!(
+                            "more than {MAX_OPERATOR_CHAIN} AND/OR/NOT operators in one expression"
+                        )));
+                    }
+                }
+                Keyword::UNION | Keyword::INTERSECT | Keyword::EXCEPT => {
+                    let l = levels.last_mut().expect("never empty");
+                    l.0 = 0;
+                    l.1 += 1;
+                    if l.1 > MAX_SET_OPERATIONS {
+                        return Err(too_complex(format!(
+                            "more than {MAX_SET_OPERATIONS} set operations in one query"
+                        )));
+                    }
+                }
+                // a new clause starts a new expression
+                Keyword::SELECT
+                | Keyword::FROM
+                | Keyword::WHERE
+                | Keyword::GROUP
+                | Keyword::HAVING
+                | Keyword::ORDER
+                | Keyword::LIMIT
+                | Keyword::ON
+                | Keyword::JOIN
+                | Keyword::WHEN
+                | Keyword::THEN
+                | Keyword::ELSE => {
+                    if let Some(l) = levels.last_mut() {
+                        l.0 = 0;
+                    }
+                }
+                Keyword::AS => is_as = true,
+                _ => {}
+            },
+            _ => {}
+        }
+        prev_was_as = is_as;
+    }
+    Ok(())
+}
+
 /// Parse a SQL query string into a Statement AST
 pub fn parse_sql(sql: &str) -> Result<sqlparser::ast::Statement> {
+    check_statement_complexity(sql)?;
     let dialect = GenericDialect {};
     let mut statements = Parser::parse_sql(&dialect, sql)?;
 
@@ -30,6 +152,7 @@ pub fn parse_sql(sql: &str) -> Result<sqlparser::ast::Statement> {
 
 /// Parse multiple SQL statements
 pub fn parse_sql_statements(sql: &str) -> Result<Vec<sqlparser::ast::Statement>> {
+    check_statement_complexity(sql)?;
     let dialect = GenericDialect {};
     let statements = Parser::parse_sql(&dialect, sql)?;
     Ok(statements)
